@@ -14,6 +14,8 @@
 #![allow(clippy::all)]
 
 extern crate rustc_abi;
+extern crate rustc_ast;
+extern crate rustc_ast_pretty;
 extern crate rustc_data_structures;
 extern crate rustc_driver;
 extern crate rustc_hir;
@@ -35,17 +37,21 @@ struct Cb {
     out_dir: String,
     tag: String,
     pre: Vec<(String, json::J)>,
+    ast_attrs: json::J,
 }
 
 impl Callbacks for Cb {
     fn after_expansion<'tcx>(&mut self, _c: &interface::Compiler, tcx: TyCtxt<'tcx>) -> Compilation {
         // pre-state-transform MIR of coroutines must be read before analysis steals it
+        // helper attributes (serde(..)) are dropped when the AST is lowered: read them from the AST first
+        self.ast_attrs = extract::ast_attrs(tcx);
         self.pre = extract::pre_bodies(tcx);
         Compilation::Continue
     }
     fn after_analysis<'tcx>(&mut self, _c: &interface::Compiler, tcx: TyCtxt<'tcx>) -> Compilation {
         let pre = std::mem::take(&mut self.pre);
-        extract::run(tcx, &self.out_dir, &self.tag, pre);
+        let ast_attrs = std::mem::replace(&mut self.ast_attrs, json::J::Null);
+        extract::run(tcx, &self.out_dir, &self.tag, pre, ast_attrs);
         Compilation::Continue
     }
 }
@@ -85,6 +91,6 @@ fn main() {
         rustc_driver::run_compiler(&args, &mut Nop);
         return;
     }
-    let mut cb = Cb { out_dir, tag: format!("{}-{}", crate_name, tag), pre: Vec::new() };
+    let mut cb = Cb { out_dir, tag: format!("{}-{}", crate_name, tag), pre: Vec::new(), ast_attrs: json::J::Null };
     rustc_driver::run_compiler(&args, &mut cb);
 }
